@@ -56,6 +56,14 @@ func init() {
 		}
 		d.rec.Log("Census", "n", n, "tops", tops)
 	}
+	// stopReading / resumeReading: the broker stops (resumes) reading from its side of the transport
+	ExtraSteps["stopReading"] = func(d *Driver, st *Step, g string) {
+		d.b.mu.Lock()
+		d.b.noRead = st.Mode != "off"
+		d.b.mu.Unlock()
+		d.rec.Log("BNoRead", "on", st.Mode != "off")
+		time.Sleep(15 * time.Millisecond) // let the read loop finish a Read that is already in progress... it cannot: see note in c08.py
+	}
 	// mark: a plain marker event (phase boundaries for the monitors)
 	ExtraSteps["mark"] = func(d *Driver, st *Step, g string) {
 		d.rec.Log("Mark", "what", st.Mode)
